@@ -199,9 +199,6 @@ def check_decoder_output(out, table):
     """C01 predicate on a decoder output. Returns None if fine, else a short reason string."""
     if out == "":
         return None
-    m = re.search(r"%\d\d\d", out)
-    if m:
-        return "ring-label>99"
     try:
         mol = read_smiles(out)
     except SmilesError as e:
@@ -213,6 +210,29 @@ def check_decoder_output(out, table):
         used = mol.bond_sum(i) + (a.hcount or 0)
         if used > cap:
             return "valence: atom %d %s uses %s > %s" % (i, a.element, used, cap)
+    return None
+
+
+def graph_matches_reader(mol, out):
+    """does the independent reader recover, from the written SMILES `out`, the graph the decoder built (`mol`, the
+    library's MolecularGraph)?  Returns None or a reason."""
+    try:
+        r = read_smiles(out) if out else None
+    except SmilesError as e:
+        return "syntax: %s" % e
+    atoms = mol.get_atoms()
+    n = 0 if r is None else len(r.atoms)
+    if n != len(atoms):
+        return "atom count %d != %d" % (n, len(atoms))
+    for i, (x, y) in enumerate(zip(atoms, r.atoms if r else [])):
+        if (x.element, x.isotope, x.charge, (x.h_count or 0)) != (y.element, y.isotope, y.charge, (y.hcount or 0)):
+            return "atom %d differs" % i
+    want = {}
+    for (a, b), bond in mol._bond_dict.items():
+        want[(min(a, b), max(a, b))] = bond.order
+    have = dict(r.bonds) if r else {}
+    if want != have:
+        return "bonds differ: %s" % sorted(set(want.items()) ^ set(have.items()))[:4]
     return None
 
 
